@@ -62,6 +62,9 @@ type cgScenario struct {
 	// LeaderlessAtPlan: "topic/partition" that has no leader from the start until the first SyncGroup of the
 	// run has been answered (the group leader computes its plan while the partition is leaderless)
 	LeaderlessAtPlan string
+	// GrowBetweenSessions: when the first Consume call of member 0 has returned, the first topic gains a
+	// partition (no background refresh is configured: the next Consume has to look)
+	GrowBetweenSessions bool
 	Retention       time.Duration // Consumer.Offsets.Retention (> 0: commits are sent as OffsetCommit v2 with a retention time)
 	Oldest          bool
 	Auto            bool
@@ -95,6 +98,7 @@ type cgEv struct {
 
 type cgResult struct {
 	listOffsetsFailed int64 // ListOffsets answers turned into NOT_LEADER (ClaimStartFails)
+	grownSeq          int64 // stamp at which the first topic gained a partition (GrowBetweenSessions; 0 = not yet)
 	sc                *cgScenario
 	newErr            error
 	events            []cgEv
@@ -409,6 +413,19 @@ func cgCore(tier string) []*cgScenario {
 			out = append(out, sc)
 		}
 	}
+	// the topic gains a partition between two Consume calls
+	// (one member: with several, the leader of the next generation may have entered its Consume call - and
+	// looked at the topic - before the topic grew)
+	for _, strat := range []string{"range", "roundrobin", "sticky"} {
+		for _, members := range []int{1} {
+			sc := &cgScenario{Brokers: 1, Topics: []string{"t"}, Parts: 2, LogN: 10, Strategy: strat, Auto: true, Oldest: true, Faults: map[string][]int{},
+				Stored: map[string]int64{}, GrowBetweenSessions: true}
+			for i := 0; i < members; i++ {
+				sc.Members = append(sc.Members, cgMember{Behaviour: "return-after-k", K: 3, CloseAfter: -1, MaxCalls: 6})
+			}
+			out = append(out, sc)
+		}
+	}
 	// committed offsets outside the log: the configured initial position applies
 	for _, oldest := range []bool{true, false} {
 		for _, stored := range []int64{-7, 40} {
@@ -544,6 +561,7 @@ func runGroup(sc *cgScenario, rng *rand.Rand) *cgResult {
 		}
 	}
 	var total int64
+	var grown int32
 	closeStart := make([]int64, len(sc.Members)) // progress counter when a member's Close began (0 = not yet, -1 = returned)
 	var running int64                            // members that have started and not finished
 	var wg sync.WaitGroup
@@ -638,6 +656,10 @@ func runGroup(sc *cgScenario, rng *rand.Rand) *cgResult {
 					es = err.Error()
 				}
 				h.log(cgEv{Kind: "consume-ret", Err: es})
+				if sc.GrowBetweenSessions && i == 0 && atomic.CompareAndSwapInt32(&grown, 0, 1) {
+					sim.AddPartition(sc.Topics[0], sim.Leader(sc.Topics[0], 0), 100)
+					atomic.StoreInt64(&res.grownSeq, sarama.VerifNextSeq())
+				}
 				cancel()
 				atomic.AddInt64(&appProgress, 1)
 				if err == sarama.ErrClosedConsumerGroup || root.Err() != nil {
@@ -1062,12 +1084,18 @@ func judgeGroup(res *cgResult) proto.Rec {
 	type genKey struct{ gen int32 }
 	assigns := map[int32]map[string][]byte{}
 	subs := map[int32]map[string][]string{}
+	firstJoin := map[int32]int64{} // generation -> stamp of its first successful join answer
 	for _, g := range res.group {
 		if g.Kind == "sync" && g.Code == 0 {
 			if assigns[g.Generation] == nil {
 				assigns[g.Generation] = map[string][]byte{}
 			}
 			assigns[g.Generation][g.Member] = g.Assignment
+		}
+		if g.Kind == "join" && g.Code == 0 {
+			if s0, ok := firstJoin[g.IssuedGeneration]; !ok || g.Seq < s0 {
+				firstJoin[g.IssuedGeneration] = g.Seq
+			}
 		}
 		if g.Kind == "join" && g.Code == 0 {
 			if subs[g.IssuedGeneration] == nil {
@@ -1093,8 +1121,15 @@ func judgeGroup(res *cgResult) proto.Rec {
 				}
 			}
 		}
-		for _, t := range sc.Topics {
-			for p := 0; p < sc.Parts; p++ {
+		for ti, t := range sc.Topics {
+			parts := sc.Parts
+			if gs := atomic.LoadInt64(&res.grownSeq); ti == 0 && gs > 0 {
+				if firstJoin[gen] < gs {
+					continue // the generation formed around the moment the topic grew: either count is right
+				}
+				parts++ // every member joined this generation after the topic had grown
+			}
+			for p := 0; p < parts; p++ {
 				if n := owners[fmt.Sprintf("%s/%d", t, p)]; n != 1 {
 					vs.add("invalid-assignment", sc.Strategy, fmt.Sprintf("generation %d: partition %s/%d has %d owners among the assignments handed out through SyncGroup", gen, t, p, n))
 				}
